@@ -113,7 +113,10 @@ type ReqSpec struct {
 	Abort bool `json:"abort,omitempty"`
 	// PreLogger: the request's context already carries a slogutil logger.
 	PreLogger bool `json:"pre_logger,omitempty"`
-	Logs      int  `json:"logs"` // records written through the context logger
+	// BadCode: a status code outside 100..999 that the invocation passes to
+	// WriteHeader (the underlying writer refuses it by panicking).
+	BadCode int `json:"bad_code,omitempty"`
+	Logs    int `json:"logs"` // records written through the context logger
 	// Hijack: 1 the handler takes over the connection through
 	// w.(http.Hijacker), 2 through http.NewResponseController(w), and writes
 	// its answer to the connection itself (protocol upgrades, proxies).
@@ -132,6 +135,15 @@ type ReqSpec struct {
 	// Flushes: how many times the handler flushes (through a response
 	// controller) after writing.
 	Flushes int `json:"flushes,omitempty"`
+}
+
+// badCode: the refused status the invocation sets first, if any (only plain
+// invocations do that: no hijacking, no early empty write).
+func (r ReqSpec) badCode() int {
+	if r.BadCode != 0 && r.Hijack == 0 && !r.EmptyFirst {
+		return r.BadCode
+	}
+	return 0
 }
 
 // aborts: only invocations that set an explicit final status abort (what
@@ -307,6 +319,10 @@ func newSink() *sink { return &sink{hdr: http.Header{}} }
 
 func (s *sink) Header() http.Header { return s.hdr }
 func (s *sink) WriteHeader(code int) {
+	if code < 100 || code > 999 {
+		// As net/http's and httptest's writers do.
+		panic(fmt.Sprintf("invalid WriteHeader code %v", code))
+	}
 	if s.final {
 		return
 	}
@@ -495,6 +511,12 @@ func checkBatch(c BatchCase) error {
 		for _, info := range spec.Pre1xx {
 			w.WriteHeader(info)
 		}
+		if spec.badCode() != 0 {
+			// A status the server refuses (a relayed upstream status, a bug):
+			// the writer panics, the server recovers; the invocation did set
+			// that status, and "finished" says so.
+			w.WriteHeader(spec.badCode())
+		}
 		if spec.Code != 0 {
 			w.WriteHeader(spec.Code)
 		}
@@ -556,7 +578,7 @@ func checkBatch(c BatchCase) error {
 		go func() {
 			defer close(done[i])
 			defer func() {
-				if r := recover(); r != nil && r != http.ErrAbortHandler {
+				if r := recover(); r != nil && r != http.ErrAbortHandler && !(c.Reqs[i].badCode() != 0 && strings.HasPrefix(fmt.Sprint(r), "invalid WriteHeader code")) {
 					fail("request %s: the handler chain panicked: %v", id, r)
 				}
 			}()
@@ -630,6 +652,9 @@ func checkBatch(c BatchCase) error {
 		if wantCode == 0 {
 			wantCode = 200
 		}
+		if spec.badCode() != 0 {
+			continue // the server answers for the handler that panicked; nothing of the invocation's to compare
+		}
 		wantBody := "response-" + id
 		if spec.NoBody {
 			wantBody = ""
@@ -694,6 +719,9 @@ func checkBatch(c BatchCase) error {
 			wantCode := c.Reqs[i].Code
 			if wantCode == 0 || c.Reqs[i].Hijack > 0 {
 				wantCode = 200
+			}
+			if bc := c.Reqs[i].badCode(); bc != 0 {
+				wantCode = bc
 			}
 			outerAfterEarlyHints := c.Early && c.Nest == 3 && lr.attrs["mw"] != "inner" && (c.Reqs[i].Code == 0 || c.Reqs[i].Hijack > 0) // (no explicit final status: the implicit-200 case after a 1xx)
 			if lr.attrs["code"] != strconv.Itoa(wantCode) && !outerAfterEarlyHints {
@@ -794,6 +822,7 @@ var batchProp = vp.Register(vp.Prop[BatchCase]{
 				BodyVia:   rapid.SampledFrom([]int{0, 0, 1, 1, 2, 3}).Draw(t, "bodyvia"),
 				Abort:     rapid.IntRange(0, 4).Draw(t, "abort") == 0,
 				PreLogger: rapid.IntRange(0, 3).Draw(t, "prelogger") == 0,
+				BadCode:   rapid.SampledFrom([]int{0, 0, 0, 0, 0, 0, 42, 99, 1000, -1}).Draw(t, "badcode"),
 				Logs:      rapid.IntRange(0, 2).Draw(t, "logs"),
 				Hijack:    rapid.SampledFrom([]int{0, 0, 0, 1, 2}).Draw(t, "hijack"),
 				NoRaddr:   rapid.IntRange(0, 3).Draw(t, "noraddr") == 0,
